@@ -213,14 +213,19 @@ def _enc_string(s, r, out, hits, depth=0):
         out += [(vals[i] << 4) | vals[i + 1] for i in range(0, len(vals), 2)]
     elif f == "jid":
         ats = [i for i, c in enumerate(s) if c == "@"]
-        cand = [i for i in ats if 0 < i < len(s) - 1]
+        # (either part may be empty: it is then written as an empty literal — 252 0 —, which is not the "no user" marker 0)
+        cand = list(ats)
         if not cand:
             hits.pop()
             return _raw(s, r, out, hits)
         i = r.choice(cand)
         out.append(250)
-        _enc_string(s[:i], r, out, hits, depth + 1)
-        _enc_string(s[i + 1:], r, out, hits, depth + 1)
+        for part in (s[:i], s[i + 1:]):
+            if part == "":
+                hits.append("str:empty-jid-part")
+                out += [252, 0]
+            else:
+                _enc_string(part, r, out, hits, depth + 1)
     elif f == "jid0":
         out += [250, 0]
         _enc_string(s, r, out, hits, depth + 1)
